@@ -293,6 +293,54 @@ def transcript_stats(traces):
     return st, sample
 
 
+def newgame_behaviour(chk, wvbin, wd, pid, quick, rnd):
+    """Below the front end: earlier games in the process, then a search that is handed no memory (what ucinewgame arranges),
+    compared event by event with the same search (same seed) in a fresh process - SearchTrace!TNewGame."""
+    fens = searchchecks.corpus_fens() + searchchecks.play_fens(wvbin, wd, chk.seed + 31, 6, 40, every=4)
+    rnd.shuffle(fens)
+    used, fresh = [], []
+    for i in range(16 if quick else 200):
+        x = {"fen": fens[(i * 3) % len(fens)], "depth": rnd.choice([2, 3, 3]), "seed": rnd.randrange(1 << 30), "workers": 1, "tables": 8, "buckets": 1024}
+        earlier = [{"fen": fens[(i * 3 + 1 + k) % len(fens)], "depth": 3, "seed": rnd.randrange(1 << 30), "workers": 1, "tables": 8, "buckets": 1024, "reuse": k > 0, "tag": "old-game"}
+                   for k in range(rnd.choice([3, 6, 10]))]
+        if i % 2 == 0:
+            # the old game ends on the very position the new game starts with
+            earlier.append(dict(x, seed=rnd.randrange(1 << 30), reuse=True, tag="old-game"))
+        used.append({"id": i, "steps": earlier + [dict(x, reuse=False, tag="N")]})
+        fresh.append({"id": i, "steps": [dict(x, reuse=False, tag="F")]})
+    t1 = searchchecks.run_scripts(wvbin, wd, "ng_used", used)
+    t2 = searchchecks.run_scripts(wvbin, wd, "ng_fresh", fresh, nproc=min(len(fresh), 48))      # (nearly) one process per fresh run
+
+    def collect(traces, tag):
+        runs, cur = {}, None
+        for t in traces:
+            for l in open(t):
+                e = json.loads(l)
+                if e["ev"] == "SearchStart":
+                    cur = e["sid"] if e["tag"] == tag else None
+                    if cur is not None:
+                        runs[cur] = []
+                elif cur is not None and e["ev"] in ("Report", "Progress"):
+                    runs[cur].append(json.dumps(e, sort_keys=True))
+                elif cur is not None and e["ev"] == "SearchEnd":
+                    runs[cur].append("end:%s:nodes=%s" % (e["status"], e["nodes"]))
+        return runs
+    a, b = collect(t1, "N"), collect(t2, "F")
+    path = os.path.join(wd, "newgame.ndjson")
+    with open(path, "w") as f:
+        for u in used:
+            x = u["steps"][-1]
+            if u["id"] not in a or u["id"] not in b:
+                tool_error("missing run for new-game case %s" % u["id"])
+            f.write(json.dumps({"ev": "NewGame", "fen": x["fen"], "seed": str(x["seed"]), "depth": x["depth"], "earlier": len(u["steps"]) - 1, "used": a[u["id"]], "fresh": b[u["id"]]}) + "\n")
+    res = tlc_many([dict(module="SearchTrace", trace=p, xmx="3g") for p in shard(path, 4)])
+    chk.add_tlc(res)
+    from check import fold_diags
+    fold_diags(chk, res, pid)
+    chk.coverage["newgame_behaviour"] = {"cases": len(used), "earlier_searches": sum(len(u["steps"]) - 1 for u in used)}
+    chk.coverage["traces_validated_against_impl"] = chk.coverage.get("traces_validated_against_impl", 0) + 1
+
+
 def check_uci(pid, tier, seed):
     from check import model_check
     chk = Check(pid, tier, seed, "model_checking")
@@ -353,6 +401,8 @@ def check_uci(pid, tier, seed):
         sessions.append((100000 + j, True, "immediate", concretize({"start": "book", "cmds": cmdsq}, pool, rnd)))
     if pid == "C07":
         sessions += every_move_sessions(pool, wvbin, wd, seed, quick)
+    if pid == "C18":
+        newgame_behaviour(chk, wvbin, wd, pid, quick, rnd)
     traces = run_sessions(cli, wd, "uci", sessions)
     validate(chk, traces, pid)
     if pid == "C07":
@@ -380,6 +430,8 @@ def check_c14(pid, tier, seed):
     pool = Pool(wvbin, wd, seed)
     bases = []
     fens = corpus_fens()[:6] + [pos_to_fen(g["moves"][min(5, len(g["moves"]) - 1)]["next"]) for g in pool.games[:4 if quick else 30] if g["moves"]]
+    # every field in every form: an en-passant target for either side, all four rights, none
+    fens += ["rnbqkbnr/ppp1pppp/8/3pP3/8/8/PPPP1PPP/RNBQKBNR w KQkq d6 0 3", "rnbqkbnr/pppp1ppp/8/8/3Pp3/8/PPP1PPPP/RNBQKBNR b KQkq d3 0 3", "4k3/8/8/8/8/8/8/4K3 w - - 0 1"]
     for f in fens:
         bases.append({"ev": "Base", "kind": "fen", "cps": [ord(c) for c in f]})
     for t in ["e4", "Nbxd5+", "O-O-O", "O-O#", "exd8=Q+", "R1a3", "Qh4xe1", "fxg1=N", "bxa8N", "Kd2"]:
